@@ -85,7 +85,9 @@ def harness_source_info(name):
 
 
 def make_scratch(tag):
-    d = os.path.join(SCRATCH_ROOT, "%s.%d" % (tag, os.getpid()))
+    # deterministic path per property: crate metadata hashes (and hence artefact names in the cached
+    # target directory) stay stable between runs; runs of one property are serialised by a lock
+    d = os.path.join(SCRATCH_ROOT, tag)
     shutil.rmtree(d, ignore_errors=True)
     os.makedirs(d)
     repo = os.path.join(d, "repo")
@@ -227,6 +229,7 @@ def parse_kani_output(text):
         desc = de.group(1) if de else ""
         loc = lo.group(1) if lo else ""
         if ".cover." in name or status in ("SATISFIED", "UNSATISFIABLE"):
+            res["n_covers"] = res.get("n_covers", 0) + 1
             res["covers"]["%s @ %s" % (desc, loc.split(" in function")[0].split("/")[-1])] = status
             continue
         res["n_checks"] += 1
@@ -237,7 +240,7 @@ def parse_kani_output(text):
     m = re.search(r"\*\* (\d+) of (\d+) failed", text)
     if m:
         res["summary_failed"], res["summary_total"] = int(m.group(1)), int(m.group(2))
-        if res["summary_total"] != res["n_checks"] or res["summary_failed"] != len(res["failed"]):
+        if not (res["n_checks"] <= res["summary_total"] <= res["n_checks"] + res.get("n_covers", 0)) or res["summary_failed"] != len(res["failed"]):
             res["error"] = "output parser disagrees with Kani's summary (%d/%d vs %d/%d)" % (
                 len(res["failed"]), res["n_checks"], res["summary_failed"], res["summary_total"])
             res["parse_mismatch"] = True
@@ -253,12 +256,46 @@ def parse_kani_output(text):
     return res
 
 
+def resolve_unwindset(h, repo, hdir, tdir, logdir):
+    """plan: "unwindset_fn": {"<substring of the demangled function name>[#k]": bound}. Loop ids carry
+    crate hashes that depend on the build path, so they are looked up per run with cbmc --show-loops."""
+    want = h.get("unwindset_fn")
+    if not want:
+        return {}
+    # make the driver link the per-harness goto binary (<harness>.out); its own parser cannot read
+    # cbmc's --show-loops output, so that run's outcome is ignored and cbmc is asked directly
+    cmd = ["cargo", "kani", "-p", h["package"], "--harness", h["_path"], "--exact", "--target-dir", tdir] + KANI_COMMON + ["--cbmc-args", "--show-loops"]
+    subprocess.run(cmd, cwd=repo, env=base_env(hdir), stdout=subprocess.DEVNULL, stderr=subprocess.DEVNULL, timeout=900)
+    cands = []
+    for root, _, files in os.walk(os.path.join(tdir, "kani")):
+        for f in files:
+            if re.search(r"\d+%s\.out$" % re.escape(h["name"]), f) and not f.endswith(".symtab.out"):
+                cands.append(os.path.join(root, f))
+    if not cands:
+        raise Inconclusive("unwindset_fn: goto binary of %s not found" % h["name"])
+    cands.sort(key=os.path.getmtime)
+    out = subprocess.run(["cbmc", "--show-loops", cands[-1]], stdout=subprocess.PIPE, stderr=subprocess.STDOUT, timeout=900).stdout.decode(errors="replace")
+    open(os.path.join(logdir, h["name"] + ".loops.log"), "w").write(out)
+    loops = re.findall(r"^Loop (\S+):\n\s+file (.*?) line (\d+)(?: column \d+)? function (.*)$", out, re.M)
+    res = {}
+    for key, bound in want.items():
+        sub, _, idx = key.partition("#")
+        hits = [l for l in loops if sub in l[3] and (not idx or l[0].endswith("." + idx))]
+        if not hits:
+            raise Inconclusive("unwindset_fn: no loop matches %r in harness %s" % (key, h["name"]))
+        for l in hits:
+            res[l[0]] = bound
+    return res
+
+
 def run_harness(h, repo, hdir, tdir, logdir, cap_s):
     name = h["name"]
     mem = h.get("mem_gb", 4)
+    h["_unwindset"] = dict(h.get("unwindset", {}))
+    h["_unwindset"].update(resolve_unwindset(h, repo, hdir, tdir, logdir))
     cmd = ["cargo", "kani", "-p", h["package"], "--harness", h["_path"], "--exact", "--target-dir", tdir] + KANI_COMMON
     cbmc_args = list(h.get("cbmc_args", []))
-    for loop, n in h.get("unwindset", {}).items():
+    for loop, n in h["_unwindset"].items():
         cbmc_args += ["--unwindset", "%s:%d" % (loop, n)]
     if cbmc_args:
         cmd += ["--cbmc-args"] + cbmc_args
@@ -304,10 +341,12 @@ def classify(h, res):
         return "inconclusive", res["error"]
     if res["verdict"] is None:
         return "inconclusive", res["error"] or "no verdict (rc %s)" % res["rc"]
+    if res["failed"]:
+        if all("unwinding assertion" in f["description"] for f in res["failed"]) and not h.get("unwind_is_violation"):
+            return "inconclusive", "unwind bound too small: " + "; ".join(sorted(set(f["check"] for f in res["failed"]))[:3])
+        return "fail", "; ".join(sorted(set(f["description"] for f in res["failed"]))[:5])
     if res["undetermined"]:
         return "inconclusive", "undetermined/error checks: %d" % len(res["undetermined"])
-    if res["failed"]:
-        return "fail", "; ".join(sorted(set(f["description"] for f in res["failed"]))[:5])
     if res["verdict"] != "SUCCESSFUL":
         return "inconclusive", "verdict %s without failed checks (memory cap / solver error)" % res["verdict"]
     if res["n_checks"] == 0:
@@ -365,7 +404,7 @@ def replay_native(h, repo, hdir, tdir, logdir, pid, res):
         + ["-Z", "concrete-playback", "--concrete-playback=inplace"]
     )
     cbmc_args = list(h.get("cbmc_args", []))
-    for loop, n in h.get("unwindset", {}).items():
+    for loop, n in h.get("_unwindset", {}).items():
         cbmc_args += ["--unwindset", "%s:%d" % (loop, n)]
     if cbmc_args:
         cmd += ["--cbmc-args"] + cbmc_args
@@ -374,16 +413,24 @@ def replay_native(h, repo, hdir, tdir, logdir, pid, res):
         try:
             subprocess.call(
                 cmd, cwd=repo, env=base_env(hdir), stdout=lf, stderr=subprocess.STDOUT,
-                preexec_fn=_limits(max(h.get("mem_gb", 4), 8)), timeout=THOROUGH_CAP_S,
+                preexec_fn=_limits(max(3 * h.get("mem_gb", 4), 24)), timeout=THOROUGH_CAP_S,
             )
         except subprocess.TimeoutExpired:
             record["replay"] = "playback generation timed out"
             json.dump(record, open(rpath, "w"), indent=1)
             return None, rpath
     after = open(hfile).read()
+    # Kani copies the (pretty-printed, possibly multi-line) assertion text into a `///` comment;
+    # join continuation lines so that the generated test compiles
+    fixed = re.sub(r'(/// Check for `[^`\n]*`: ")((?:[^"\n]|\n(?!\n#\[test\]))*)("\n\n#\[test\])',
+                   lambda m: m.group(1) + m.group(2).replace("\n", " ") + m.group(3), after)
+    if fixed != after:
+        after = fixed
+        open(hfile, "w").write(after)
     tests = re.findall(r"fn (kani_concrete_playback_\w+)\s*\(", after)
     new_tests = [t for t in tests if t not in before]
     if not new_tests:
+        open(hfile, "w").write(before)
         record["replay"] = "no concrete playback test was generated"
         json.dump(record, open(rpath, "w"), indent=1)
         return None, rpath
@@ -396,6 +443,7 @@ def replay_native(h, repo, hdir, tdir, logdir, pid, res):
             cex.append((t, b_))
     record["playback_tests"] = [b_ for _, b_ in cex]
     if not cex:
+        open(hfile, "w").write(before)
         record["replay"] = "concrete playback produced no counterexample test"
         json.dump(record, open(rpath, "w"), indent=1)
         return None, rpath
@@ -419,6 +467,7 @@ def replay_native(h, repo, hdir, tdir, logdir, pid, res):
                          "panic": re.findall(r"panicked at [^\n]*\n[^\n]*", out)[:3]})
             if failed:
                 reproduced = True
+    open(hfile, "w").write(before)  # the next replay starts from the pristine harness file
     record["native_runs"] = outs
     record["reproduced"] = reproduced
     json.dump(record, open(rpath, "w"), indent=1)
@@ -462,6 +511,9 @@ def schedule(harnesses, worker, jobs):
     def run_one(h):
         try:
             results[h["name"]] = worker(h)
+        except Inconclusive as e:
+            results[h["name"]] = {"name": h["name"], "status": "inconclusive", "detail": str(e), "failed": [], "covers": {}, "n_checks": 0}
+            log("[%s] INCONCLUSIVE %s" % (h["name"], e))
         except Exception as e:  # pragma: no cover
             results[h["name"]] = {"name": h["name"], "exception": repr(e)}
         with cond:
@@ -531,15 +583,19 @@ def main():
     notes = []
     violations = 0
     try:
-        scratch, repo, hdir = make_scratch(pid + "-" + args.tier)
+        scratch, repo, hdir = make_scratch(pid)
         logdir = os.path.join(CACHE, "logs", pid + "-" + args.tier)
         shutil.rmtree(logdir, ignore_errors=True)
         os.makedirs(logdir)
         transforms = apply_transforms(plan, repo, hdir)
         check_hooks(plan, repo, harnesses)
-        if "generator" in plan:
-            gen = os.path.join(VERIF, plan["generator"])
-            subprocess.check_call([sys.executable, gen, repo, hdir, args.tier, str(seed)])
+        gdir = os.path.join(VERIF, "harness", "gen")
+        for g in sorted(os.listdir(gdir)):
+            if g.startswith("gen_") and g.endswith(".py"):
+                try:
+                    subprocess.check_call([sys.executable, os.path.join(gdir, g), repo, hdir, args.tier, str(seed), pid])
+                except subprocess.CalledProcessError as e:
+                    raise Inconclusive("generator %s failed: %s" % (g, e))
         pkgs = []
         for h in harnesses:
             if h["package"] not in pkgs:
@@ -669,7 +725,7 @@ def write_evidence(pid, tier, seed, plan, harnesses, hres, transforms, build_s, 
                 "functions_encoded": h.get("functions", []),
                 "bounds": h.get("bounds", ""),
                 "unwind": info["unwind"],
-                "unwindset": h.get("unwindset", {}),
+                "unwindset": h.get("unwindset_fn", h.get("unwindset", {})),
                 "stubs": info["stubs"],
                 "exhaustive_over_domain": bool(h.get("exhaustive", False)),
                 "status": r.get("status"),
